@@ -282,7 +282,7 @@ def constructor_grid_harness(tier):
 
     def native_clauses(h, inp, res):
         return {"C11.constructor-yields-usable-transform": all(st == "ok" for st, _ in res.values())}
-    hn = Harness("linear_constructor_grid[]", run, post, native_call=lambda h, inp: run(h, None), native_clauses=native_clauses, sample=lambda h, rng: {},
+    hn = Harness(f"linear_constructor_grid[{tier}]", run, post, native_call=lambda h, inp: run(h, None), native_clauses=native_clauses, sample=lambda h, rng: {},
                  functions=[HouseholderSequence.__init__, LULinear.__init__, LULinear._initialize, NaiveLinear.__init__, QRLinear.__init__, SVDLinear.__init__], check_defined=False)
     hn.native_float32 = False
     return hn
@@ -300,7 +300,7 @@ def linear_harnesses(tier, modes=("accessors", "forward", "inverse_of_forward"))
             for mode in modes:
                 hs.append(linear_harness(cname, Dn, 0, mode))
     for cname in ("QRLinear", "SVDLinear", "Householder"):
-        for Dn, K in (((1, 1), (2, 1), (2, 2)) if tier == "quick" else ((1, 1), (1, 2), (2, 1), (2, 2), (2, 3), (3, 2), (2, 4))):
+        for Dn, K in (((1, 1), (2, 1), (2, 2)) if tier == "quick" else ((1, 1), (1, 2), (2, 1), (2, 2), (3, 2))):
             if cname == "SVDLinear" and K % 2:
                 continue          # SVDLinear asserts an even number of Householder transforms
             if cname in ("QRLinear", "SVDLinear") and Dn >= 3:
